@@ -169,6 +169,11 @@ def scene_struct_copy(c):
     if how in ("ret", "arg") and c.packed_types:
         # avoid(packed-by-value): packed structs passed/returned by value are a recorded finding
         how = "assign"
+    if how in ("ret", "arg") and any(t.startswith("bf:") for _, t, _ in leaves):
+        # avoid(byvalue-bitfield-aggregate): recorded finding (C08): the IL type description of an aggregate that contains
+        # bit-fields can have the wrong size, so such aggregates are not passed or returned by value here
+        how = "assign"
+        c.labels.add("avoided:byvalue-bitfield-aggregate")
     c.labels.add("copy:" + how)
     if how == "assign":
         body.append("b = a;")
